@@ -76,6 +76,7 @@ func drawProfile(t *tape.Tape, tier string) world.Profile {
 	p.UserFuncs = t.Bool()
 	p.Concurrency = t.Bool()
 	p.FuncParamForms = false // C09's profile exercises unnamed / blank / generator-like parameter names
+	p.Force = t.Intn(6) == 0
 	p.MaxDecls = 1 + t.Intn(6)
 	p.MaxCalls = 1 + t.Intn(8)
 	return p
